@@ -703,9 +703,12 @@ func c12Connection(rep *vk.Report, i int, r *rand.Rand, frames []c12Frame, sigPr
 			rep.Violation(sigPrefix+"output/undecodable", "a frame from the relay does not decode as a server message: "+derr.Error(), wit(map[string]any{"frame": string(data)}))
 			return
 		}
-		if bytes.Contains(data, []byte(c12Mark+"END")) {
+		// marks are looked for in what the frame says, not in how it is spelled (a relay may
+		// write any character of a string as a \u escape)
+		said, _ := json.Marshal(m)
+		if bytes.Contains(said, []byte(c12Mark+"END")) {
 			ended = true
-		} else if bytes.Contains(data, []byte("⟦H")) || bytes.Contains(data, []byte(`⟦H`)) {
+		} else if bytes.Contains(said, []byte(c12Mark)) {
 			fromHandler = append(fromHandler, m)
 		} else {
 			rejections = append(rejections, m)
@@ -735,7 +738,7 @@ func c12Connection(rep *vk.Report, i int, r *rand.Rand, frames []c12Frame, sigPr
 			rep.Violation(sigPrefix+"output/undecodable", "a frame from the relay does not decode as a server message: "+derr.Error(), wit(map[string]any{"frame": string(data)}))
 			return
 		}
-		if bytes.Contains(data, []byte("⟦H")) {
+		if said, _ := json.Marshal(m); bytes.Contains(said, []byte(c12Mark)) {
 			rep.Violation(sigPrefix+"output/after-end-marker", "a handler emission arrived after the handler's last emission", wit(nil))
 			return
 		}
@@ -803,6 +806,19 @@ func c12Connection(rep *vk.Report, i int, r *rand.Rand, frames []c12Frame, sigPr
 			rep.Violation(sigPrefix+"handler/order-or-content", fmt.Sprintf("message %d at the handler is not the %d-th valid frame", k, k), wit(map[string]any{"handler_got": describeClient(got), "frame": string(valid[k].data)}))
 			return
 		}
+	}
+	if sigPrefix != "" {
+		// used by another property's check for what reaches the handler only: how and how
+		// often refusals are answered, and the handler's own output, are C12's business
+		rep.Count("connections", 1)
+		rep.Count("frames", int64(len(frames)))
+		rep.Count("frames_admitted", int64(len(valid)))
+		rep.Count("frames_rejected", int64(bad))
+		if bad > 0 && len(valid) > 0 {
+			rep.Nontrivial(strings.Join(classes, ","))
+		}
+		conn.Close(websocket.StatusNormalClosure, "")
+		return
 	}
 	if len(rejections) != bad {
 		sig := "rejection/missing"
